@@ -357,7 +357,15 @@ func jsonFacts(n *JN) []*PExp {
 		}
 		return fs
 	}
-	for _, m := range n.Members {
+	if len(n.Members) <= 3 {
+		any := NT{Any: true}
+		fs = append(fs, &PExp{Op: "count", NT: &any, N: len(n.Members)})
+	}
+	for i, m := range n.Members {
+		if it := m.innerText(); i < 3 && okValue(it) {
+			any := NT{Any: true}
+			fs = append(fs, &PExp{Op: "childposeq", NT: &any, N: i + 1, V: it})
+		}
 		nt := NT{Any: true}
 		if n.Kind == 'o' && isXPathName(m.Key) {
 			nt = NT{Local: m.Key}
